@@ -18,7 +18,7 @@ RULE = ('exhaustive core: 4 constraint types x {2,3} choices x {2,3,4} options x
         'and keeps >= 1 combination; distinct by sha1(spec, mode)')
 FUZZ_MODULES = ['adsg_core.graph.choice_constraints', 'adsg_core.graph.choices']   # thorough tier: atheris campaign over these modules (vf/fuzz.py)
 FUZZ_RUNS = 4000
-BUDGET = {'quick': 300, 'thorough': 6000}
+BUDGET = {'quick': 600, 'thorough': 6000}
 TYPES = ['LINKED', 'PERMUTATION', 'UNORDERED', 'UNORDERED_NOREPL']
 PLACEMENTS = ['perm', 'hier_first', 'hier_last', 'hier_rev_first', 'hier_rev_last', 'mutex', 'two_plus_cond',
               'two_plus_cond_rev', 'pool', 'window']
